@@ -38,4 +38,4 @@ contract('parso.tree.Node.__init__', params={'self': 'ref:Node', 'type': 'str', 
                    'trigger=lambda k: children[k])'],
          ensures=['self.children is children', 'self.type == type',
                   'forall(lambda k: implies(0 <= k and k < len(children), children[k].parent is self), trigger=lambda k: children[k])'],
-         props=['C19'])
+         modifies=['self.type', 'self.children', 'self.parent', 'parent'], props=['C19'])
